@@ -32,24 +32,24 @@ Section C08.
 
   (* ---- the hypothesis "parse (show v) = v" of C08_multiset, PROVED for integers, booleans, text *)
   Theorem C08_int_text_roundtrip : forall sg bits z hive, in_range sg bits z = true ->
-    parse_with_meta (KInt sg bits) (show hive (VInt z)) = Some (VInt z).
+    parse_with_meta (KInt sg bits) (show hive (VInt z)) = Ok (VInt z).
   Proof. exact (roundtrip_int F T D show_float parse_float show_time_iso show_time_str parse_time_np parse_time_fmt). Qed.
 
   Theorem C08_python_int_of_str : forall z, parse_int (show_Z z) = Some z.
   Proof. exact parse_int_show_Z. Qed.
 
-  Theorem C08_bool_text_roundtrip : forall b hive, parse_with_meta KBool (show hive (VBool b)) = Some (VBool b).
+  Theorem C08_bool_text_roundtrip : forall b hive, parse_with_meta KBool (show hive (VBool b)) = Ok (VBool b).
   Proof. exact (roundtrip_bool F T D show_float parse_float show_time_iso show_time_str parse_time_np parse_time_fmt). Qed.
 
   Theorem C08_str_text_roundtrip : forall s hive,
-    parse_with_meta KStr (show hive (VStr s)) = Some (VStr s) /\
-    parse_with_meta KCat (show hive (VCat (VStr s))) = Some (VStr s).
+    parse_with_meta KStr (show hive (VStr s)) = Ok (VStr s) /\
+    parse_with_meta KCat (show hive (VCat (VStr s))) = Ok (VStr s).
   Proof. intros s hive. split; reflexivity. Qed.
 
   (* floats / timestamps: reduced to the external conversions (trusted base) *)
   Theorem C08_float_time_roundtrip_conditional : forall hive f t ns,
-    (parse_float (show_float f) = Some f -> parse_with_meta KFloat (show hive (VFloat f)) = Some (VFloat f)) /\
-    (parse_time_np (show_time_iso t) = Some t -> parse_with_meta (KTime ns) (show true (VTime t)) = Some (VTime t)).
+    (parse_float (show_float f) = Some f -> parse_with_meta KFloat (show hive (VFloat f)) = Ok (VFloat f)) /\
+    (parse_time_np (show_time_iso t) = Some t -> parse_with_meta (KTime ns) (show true (VTime t)) = Ok (VTime t)).
   Proof.
     intros hive f t ns. split.
     - exact (roundtrip_float F T D show_float parse_float show_time_iso show_time_str parse_time_np parse_time_fmt f hive).
@@ -63,7 +63,7 @@ Section C08.
   (* known defect (finding C08-categorical-numeric-labels): the label dtype is not recorded, so the
      labels of a numeric categorical come back as text *)
   Theorem C08_categorical_numeric_refuted : exists v hive,
-    parse_with_meta KCat (show hive (VCat v)) <> Some v.
+    parse_with_meta KCat (show hive (VCat v)) <> Ok v.
   Proof. exists (VInt 1), true. cbn. discriminate. Qed.
 
   (* ---- group-by split: no row with non-null keys lost or duplicated, for every frame *)
